@@ -475,10 +475,10 @@ Proof.
 Qed.
 
 (* a model that was built evaluates: every invocable of it returns a value *)
-Lemma built_evaluates : forall fuel d n, length (deps d) < fuel -> build fuel d = Ok -> evaluate fuel d n = Ok.
+Lemma built_evaluates : forall fuel d ms n, length (deps d) < fuel -> build fuel d = Ok -> evaluate fuel d ms n = Ok.
 Proof.
-  intros fuel d n Hf Hb. unfold build in Hb. destruct (has_cycle (deps d)) as [|c|] eqn:E; [discriminate | | discriminate].
-  destruct (passed_numbering _ c E) as [Hd Hr]. apply (evaluate_total fuel d (finish_rank c) n Hd). specialize (Hr n). lia.
+  intros fuel d ms n Hf Hb. unfold build in Hb. destruct (has_cycle (deps d)) as [|c|] eqn:E; [discriminate | | discriminate].
+  destruct (passed_numbering _ c E) as [Hd Hr]. apply (evaluate_total fuel d (finish_rank c) ms n Hd). specialize (Hr n). lia.
 Qed.
 
 (* item definitions: the search finds the self reference through a chain of components of EVERY depth (the finite sweep went to depth 6) *)
@@ -495,7 +495,7 @@ Lemma examples :
   has_cycle g_ring3_tail = Cycle /\ on_cycle g_ring3_tail 0 /\ build 0 (mk_defs [] g_ring3_tail) = Err /\
   has_cycle g_diamond = NoCycle diamond_colours /\
   map (finish_rank diamond_colours) [0; 1; 2; 3; 5] = [4; 2; 3; 1; 0] /\
-  build 5 (mk_defs [mk_table 1 1 [mk_rule 1 1]] g_diamond) = Ok /\
+  build 5 (mk_defs [mk_table First 1 [o_plain] [mk_rule 1 [1]]] g_diamond) = Ok /\
   has_cycle [(4, [4])] = Cycle /\ has_cycle [(0, [1]); (1, []); (0, [0])] = NoCycle [(0, true); (1, true); (1, false); (0, false)].
 Proof.
   split; [vm_compute; reflexivity|]. split.
